@@ -49,7 +49,7 @@ ASSUME = ["longdouble reference matrices of lie_ref (validated against mpmath in
           "tolerances c*u*scale with u the eps of the input dtype: chspline 64 u max|p|; bspline 256 u (rotation) and "
           "256 u (1+max|t| + max_steps |dt|/max(theta, sqrt(u))) (translation; the last term is the conditioning of Exp/Log "
           "of a relative pose with small rotation theta, never looser than the sqrt(u)|dt| C01/C02 allow); "
-          "metrics 512 u (1+max|t|), for ape with align/scale times the alignment condition number s1/(s2+s3) times "
+          "metrics 512 u (1+max|t|), for ape with align/scale 2048 u (1+max|t|) times the alignment condition number s1/(s2+s3) times "
           "max(1, max|t| / RMS extent) (centring); geodesic 64 u / max(sin(angle), sqrt(u)) (an acos-based implementation would also pass)",
           "bspline continuity: jump at a knot <= 10 x the larger neighbouring step at interval 1e-3 (+ 256 u scale)",
           "ape/rpe: the statistics named STD / Median are accepted with either ddof (0/1) and any value between the two "
@@ -59,7 +59,7 @@ ASSUME = ["longdouble reference matrices of lie_ref (validated against mpmath in
           "CPU only"]
 
 LD = np.longdouble
-C_CH, C_BS, C_MET, C_GEO = 64.0, 256.0, 512.0, 64.0
+C_CH, C_BS, C_MET, C_ALIGN, C_GEO = 64.0, 256.0, 512.0, 2048.0, 64.0
 ETYPES = ("translation", "rotation", "pose", "radian", "degree")
 STATS = ("Max", "Min", "Mean", "Median", "RMSE", "SSE", "STD")
 
@@ -402,7 +402,7 @@ def run_bspline(ck):
     shapes = spline_shapes()
     case = 0
     for N in range(2, 61):
-        reps = 16 if thorough else 2
+        reps = 16 if thorough else 3
         for _ in range(reps):
             case += 1
             if not ck.mine(case):
@@ -414,7 +414,7 @@ def run_bspline(ck):
                 check_bspline_twist(ck, rng, N, iv, shape, dn)
                 check_bspline_equiv(ck, rng, N, iv, shape, dn, False)
             check_bspline_equiv(ck, rng, N, iv, shape, dn, True)
-    ncont = 24 if thorough else 3
+    ncont = 24 if thorough else 4
     for c in range(ncont):
         N = int(rng.choice([4, 5, 7, 12, 25, 60])) if c else 4
         shape = [(), (2,)][int(rng.integers(0, 2))] if N <= 12 else ()
@@ -581,33 +581,40 @@ def pairs_frames(N, delta, all_pairs):
 
 
 def pairs_distance(t, delta, rtol, all_pairs):
-    """-> (number of pairs, smallest decision margin) for the path-distance pairing."""
+    """-> (list of index pairs, smallest decision margin) of the path-distance pairing (screening only)."""
     t = f64(t)
     seg = np.linalg.norm(t[1:] - t[:-1], axis=-1)
     if all_pairs:
         D = np.concatenate([[0.0], np.cumsum(seg)])
-        n, margin = 0, np.inf
+        pairs, margin = [], np.inf
         tol = delta * rtol
         for i in range(len(D) - 1):
             c = np.abs(D[i + 1:] - D[i] - delta)
-            o = np.sort(c)
+            o = np.argsort(c, kind="stable")
             if len(o) > 1:
-                margin = min(margin, o[1] - o[0])
-            margin = min(margin, abs(o[0] - tol))
-            n += int(o[0] <= tol)
-        return n, margin
-    path, sel, margin = 0.0, 0, np.inf
+                margin = min(margin, c[o[1]] - c[o[0]])
+            margin = min(margin, abs(c[o[0]] - tol))
+            if c[o[0]] <= tol:
+                pairs.append((i, i + 1 + int(o[0])))
+        return pairs, margin
+    path, sel, margin = 0.0, [], np.inf
     for i in range(len(t)):
         path += seg[i - 1] if i else 0.0
         margin = min(margin, abs(path - delta))
         if path >= delta:
-            sel += 1
+            sel.append(i)
             path = 0.0
-    return max(sel - 1, 0), margin
+    return list(zip(sel[:-1], sel[1:])), margin
 
 
-def pairing_options(rng, est_M, ref_M, N):
-    """A list of (kwargs, n_pairs or None) with unambiguous pairing and >= 2 pairs."""
+def passed_translations(traj):
+    return traj.poses.tensor()[:, :3].double().numpy()
+
+
+def pairing_options(ck, rng, N, ref, est, same, ref_m, est_m):
+    """A list of (kwargs, n_pairs or None): frame pairings with >= 1 pair; distance pairings whose pair list is
+    non-trivial, decided with a clear margin and identical for a trajectory and its left-multiplied copy
+    as actually passed (after rounding to the dtype)."""
     out = []
     for all_pairs in (False, True):
         for delta in sorted({1, int(rng.integers(1, max(2, min(8, (N - 1) // 2 + 1))))}):
@@ -616,15 +623,19 @@ def pairing_options(rng, est_M, ref_M, N):
                 out.append((dict(associate="frame", delta=float(delta), all=all_pairs), n))
     for all_pairs in (False, True):
         for rpair in (False, True):
-            t = (ref_M if rpair else est_M)[:, :3, 3]
-            total = float(np.linalg.norm(f64(t[1:] - t[:-1]), axis=-1).sum())
+            t0 = passed_translations(ref if rpair else est)
+            total = float(np.linalg.norm(t0[1:] - t0[:-1], axis=-1).sum())
             delta = total / float(rng.uniform(3.0, 8.0))
             rtol = float(rng.choice([0.1, 0.3]))
-            # the pairing trajectory is the estimate (the reference with rpair); the "identical" case passes the
-            # reference as estimate, so the pairing must be unambiguous and non-empty on both
-            scr = [pairs_distance(tt[:, :3, 3], delta, rtol, all_pairs) for tt in (est_M, ref_M)]
-            if all(n >= 2 and margin > 1e-6 * (1.0 + total) for n, margin in scr):
+            group = (ref, ref_m) if rpair else (est, est_m)
+            lists = [pairs_distance(passed_translations(x), delta, rtol, all_pairs) for x in group]
+            other = pairs_distance(passed_translations(ref if rpair else same), delta, rtol, all_pairs)
+            thr = 1e-9 * (1.0 + total)
+            ok = all(len(pl) >= 2 and mg > thr for pl, mg in lists + [other]) and lists[0][0] == lists[1][0]
+            if ok:
                 out.append((dict(associate="distance", delta=delta, rtol=rtol, all=all_pairs, rpair=rpair), None))
+            else:
+                ck.note_add("rpe_distance_pairing_ambiguous_or_empty_skipped")
     return out
 
 
@@ -724,7 +735,7 @@ def check_metrics(ck, rng, N, dn):
                 continue
             sc = align_scale(etype, max(tmax_all, moved.tmax()), cond, spread, s)
             ck.count("ape.align_invariance", reg, key=(N, refM[0].tobytes(), etype, align, scale))
-            ck.ratio("ape.align_invariance", reg, stat_diffs(a, b, N), C_MET * u * sc, "metric.ape",
+            ck.ratio("ape.align_invariance", reg, stat_diffs(a, b, N), C_ALIGN * u * sc, "metric.ape",
                      "changed_by_similarity_transform_of_estimate" if scale else "changed_by_rigid_transform_of_estimate",
                      {"N": N, "etype": etype, "align": align, "scale": scale, "s": s, "cond": cond, "dtype": dn,
                       "stats": a, "stats_moved": b, "G": mats_to_se3(G[None])[0].tolist()})
@@ -737,16 +748,16 @@ def check_metrics(ck, rng, N, dn):
                 worst = max(max(abs(c[k]) for k in ("Max", "Min", "Mean", "Median", "RMSE", "STD")), math.sqrt(abs(c["SSE"])))
                 sc = align_scale(etype, max(tmax_all, cp.tmax()), condc, spreadc, s)
                 ck.count("ape.align_invariance", reg + "/copy", key=(N, refM[0].tobytes(), etype, align, scale))
-                ck.ratio("ape.align_invariance", reg + "/copy", worst, C_MET * u * sc, "metric.ape",
+                ck.ratio("ape.align_invariance", reg + "/copy", worst, C_ALIGN * u * sc, "metric.ape",
                          "transformed_copy_of_reference_not_aligned_to_zero",
                          {"N": N, "etype": etype, "align": align, "scale": scale, "s": s, "cond": condc, "stats": c})
 
     # ------------------------------------------------------------------ rpe
-    opts = pairing_options(rng, estM, refM, N)
     G1 = random_pose_mats(rng, 1, float(rng.choice([1.0, 30.0])))[0]
     G2 = random_pose_mats(rng, 1, float(rng.choice([1.0, 30.0])))[0]
     ref_m = Traj(rst, np.matmul(G1, refM), dn, sdt)
     est_m = Traj(est_st, np.matmul(G2, estM), dn, sdt)
+    opts = pairing_options(ck, rng, N, ref, est, same, ref_m, est_m)
     tm = max(tmax_all, ref_m.tmax(), est_m.tmax())
     for pk, npairs in opts:
         ptag = f"{pk['associate']}/all={pk['all']}" + ("/rpair" if pk.get("rpair") else "")
@@ -834,7 +845,7 @@ def check_planted(ck, rng, N):
 def run_metrics(ck):
     rng = ck.rng("metrics")
     thorough = ck.tier == "thorough"
-    Ns = [3, 4, 5, 200, 199, 64] + [int(v) for v in rng.integers(3, 201, 90 if thorough else 4)]
+    Ns = [3, 4, 5, 200, 199, 64] + [int(v) for v in rng.integers(3, 201, 90 if thorough else 10)]
     for i, N in enumerate(Ns):
         if not ck.mine(i):
             continue
@@ -856,7 +867,7 @@ def run_metrics(ck):
                     npairs = len(keep) if which == "ape" else len(pairs_frames(len(keep), 1, kw.get("all", False)))
                     call_metric(ck, which, ref, est, f"offset/{which}/{'ref' if drop_ref else 'est'}-shorter",
                                 n_expected=npairs, twice=True, offset=off, **kw)
-    npl = 40 if thorough else 3
+    npl = 40 if thorough else 8
     for i in range(npl):
         check_planted(ck, rng, int(rng.choice([3, 4, 7, 20, 60, 200])) if i else 3)
     ck.require("metric/stamps:jitter", "metric/poses:f64", "metric/offset!=0/second-call", "metric/N=3", "metric/N=200",
